@@ -269,7 +269,11 @@ func zxC12Dedup() {
 	eo := follows[0].EarliestOffset
 	for i := range prior {
 		if prior[i] != nil {
-			vrtAssert(!eo.After(prior[i]), "the earliest offset requested from the leader is not above table "+zxItoa(i)+"'s own offset")
+			vrtAssert(eo == nil || !eo.After(prior[i]), "the earliest offset requested from the leader is not above table "+zxItoa(i)+"'s own offset")
+		} else {
+			// a table that has recorded nothing yet (new, or crashed before its first flush) needs
+			// the stream from the start: the leader begins each table at max(its offset, EarliestOffset)
+			vrtAssert(eo == nil, "table "+zxItoa(i)+" has no offset yet (never flushed), so the stream is requested from its start and not from a sibling table's offset")
 		}
 	}
 	// deliveries
